@@ -17,8 +17,8 @@ import (
 // unless debugging.
 
 const builtinMarker = "<title>Something went wrong</title>"
-const customPageSource = "<h1 style=\"width: 100%;\">custom error page CUSTOM-SENTINEL %d %s 50%</h1>@each(i in [1, 2, 3])<i>{{ i }}</i>@end"
-const customPageText = "<h1 style=\"width: 100%;\">custom error page CUSTOM-SENTINEL %d %s 50%</h1><i>1</i><i>2</i><i>3</i>"
+const customPageSource = "<h1 style=\"width: 100%;\">custom error page CUSTOM-SENTINEL %d %s 50% é中😀</h1>@each(i in [1, 2, 3])<i>{{ i }}</i>@end"
+const customPageText = "<h1 style=\"width: 100%;\">custom error page CUSTOM-SENTINEL %d %s 50% é中😀</h1><i>1</i><i>2</i><i>3</i>"
 
 type respPlace struct {
 	name string
@@ -339,6 +339,9 @@ func init() {
 						return
 					}
 					body := rec.body.String()
+					if hp := rec.headerProblem(); hp != "" {
+						c.Violation("response:content-length", hp, desc)
+					}
 					sig := "response:sequence"
 					if rerr == nil {
 						c.Violation(sig+":nil-error", fmt.Sprintf("step %d: rendering fails but Response returned nil", k), desc)
@@ -420,6 +423,9 @@ func init() {
 						return
 					}
 					body := rec.body.String()
+					if hp := rec.headerProblem(); hp != "" {
+						c.Violation("response:content-length", hp, desc)
+					}
 					c.Nontrivial(fmt.Sprint(cb))
 					if i%499 == 0 {
 						c.Sample(map[string]any{"debug": cb.debug, "custom_error_page": errPageModes[cb.mode], "place": pl.name, "failing_statement": cb.pos, "returned_error": rerr != nil, "body_bytes": len(body)})
